@@ -220,8 +220,8 @@ UNBOUNDED_OK = {"swap_mutex_fair", "swap_mutex_unfair", "swap_sem_fair", "swap_s
                 "mpmc_notified_drop_contended", "mutex_notified_drop_contended_fair", "mutex_notified_drop_contended_unfair",
                 "sem_notified_drop_contended_fair", "sem_notified_drop_contended_unfair", "state_try_receive_contended", "timer_check_contended",
                 "mpmc_transient_clone", "mpmc_receiver_clones", "state_handles_race", "bcast_handles_race", "mpmc_cancel_vs_receive_cap0",
-                "mpmc_cancel_vs_receive_cap1", "mpmc_close_vs_send", "oneshot_shared_send_then_drop", "oneshot_shared_drop_only", "timer_abandon",
-                "mutex_fair_order", "mpmc_double_close", "event_set_vs_abandon", "event_set_vs_abandon_tail", "mpmc_close_vs_abandon",
+                "mpmc_cancel_vs_receive_cap1", "mpmc_close_vs_send", "oneshot_shared_send_then_drop", "oneshot_shared_drop_only",
+                "event_set_vs_abandon", "event_set_vs_abandon_tail", "mpmc_close_vs_abandon",
                 "mpmc_close_vs_abandon_rev", "state_send_vs_abandon", "state_send_vs_abandon_rev", "bcast_send_vs_abandon", "bcast_send_vs_abandon_rev",
                 "mpmc_orphan_recv", "mpmc_orphan_send", "state_orphan_recv", "bcast_orphan_recv", "oneshot_orphan_recv",
                 "mutex_barger_holds_fair", "mutex_barger_holds_unfair", "sem_barger_holds_fair", "sem_barger_holds_unfair", "event_setters_race",
